@@ -631,7 +631,9 @@ def _isotope_substitution(compound, source, target, portion=1):
     if source in atoms:
         mass = compound.mass
         mass_reduction = atoms[source]*portion*(source.mass - target.mass)
-        density = compound.density * (mass - mass_reduction)/mass
+        density = compound.density
+        if density is not None:
+            density = density * (mass - mass_reduction)/mass
         atoms[target] = atoms.get(target, 0) + atoms[source]*portion
         if portion == 1:
             del atoms[source]
